@@ -4,7 +4,7 @@ open Panqec
 
 /-! ops for `Model/Lattices/HollowRhombicCode.lean`:
     `lat HollowRhombicCode <Lx> <Ly> <Lz> qubits|stabs|stab <coord>|logx|logz|axis <coord>|
-    type <coord>|deform <name_with_underscores> <coord>|hmat|lxmat|lzmat|n|k` -/
+    type <coord>|deform <name_with_underscores> <coord>|hmat|lxmat|lzmat|n|k|rankfamily` -/
 namespace Drv
 
 def hollowRhombicShowStab : HollowRhombicCode.StabResult → String
@@ -29,6 +29,7 @@ def hollowRhombicCodeQuery (Lx Ly Lz : Nat) : List String → Option String
       | some L => showStack L | none => "ERR key")
   | ["lzmat"] => some (match logicalsZ (HollowRhombicCode.lattice Lx Ly Lz).toCodeData with
       | some L => showStack L | none => "ERR key")
+  | ["rankfamily"] => some (lat2dShowCoords (HollowRhombicCode.rankFamily Lx Ly Lz))
   | ["n"] => some (toString (HollowRhombicCode.lattice Lx Ly Lz).toCodeData.n)
   | ["k"] => some (toString (HollowRhombicCode.lattice Lx Ly Lz).toCodeData.k)
   | _ => none
